@@ -16,15 +16,22 @@
     * `List (List ROp)`   the bodies of `reevaluate_cache` along the MRO of the pass class (most derived first,
                           `HookHost.reevaluate_cache` last) and along the MRO of the pass's roll class, statement by statement
     * `List LStep`        the body of the solution loop of `Unit.solve`, call by call
-    * `List IOp`          `BaseRollPass.init_solve`
+    * `List IOp`          `BaseRollPass.init_solve`, statement by statement: the out profile is created by `super().init_solve`
+                          when the pass has none, otherwise re-used (its root-hook results, `cross_section` among them, stay as
+                          start values); the first guess of the out cross-section (`usable_cross_section`) is assigned either on
+                          EVERY solve (`seed`) or only when the out profile was created by this very call
+                          (`created = not self.out_profile` before, `if created: …` after the `super()` call)
 
   State: `γ` is the type of the gap, `κ` the type of what identifies a groove (any types: the model only moves the values
   around).  A `Prov` says where contour lines come from: the gap they were placed at, the groove whose contour the roll's
   contour line carried, and the groove that was read directly.  `lines` = the memoised contour lines, `gapC` = the cached
   value of the hook `gap`, `ucs` = the lines the cached `usable_cross_section` was built from, `used` = for every evaluation
   of the root hook `OutProfile.cross_section` the lines it was built from (latest first), `cpC` = the cached value of the
-  roll's hook `contour_points`, `rline` = the roll's memoised contour line.  `g` is what the gap hook's implementation
-  answers at that moment, `k` the groove that is mounted on the roll at that moment.
+  roll's hook `contour_points`, `rline` = the roll's memoised contour line; `outp` = the pass has an out profile, `crt` = the
+  local `created` of the running `init_solve`, `ocs` = what `out_profile.cross_section` HOLDS (`OutCs`: the cross-section
+  handed over from the incoming profile at creation, the first guess = the usable cross-section, or the result of the root
+  hook `OutProfile.cross_section` = the hook implementation at the prescribed width on the contour lines of that moment).
+  `g` is what the gap hook's implementation answers at that moment, `k` the groove that is mounted on the roll at that moment.
 -/
 
 namespace OutCS.Cache
@@ -51,6 +58,8 @@ inductive IOp where
   | super       -- `super().init_solve(in_profile)`
   | reset       -- `self._contour_lines = None`
   | seed        -- `self.out_profile.cross_section = self.usable_cross_section`
+  | created     -- `created = not self.out_profile`
+  | seedIfCreated  -- `if created: self.out_profile.cross_section = self.usable_cross_section`
   deriving Repr, DecidableEq, Inhabited
 
 /-- shape of a memoising property (`contour_lines` of the pass, `contour_line` of the roll) -/
@@ -75,6 +84,13 @@ structure Prov (γ κ : Type) where
   direct : Option κ       -- the groove read directly during the construction (if it reads one)
   deriving Repr, DecidableEq, Inhabited
 
+/-- what `out_profile.cross_section` holds -/
+inductive OutCs (γ κ : Type) where
+  | inherited              -- the incoming profile's cross-section, handed over when the out profile is created
+  | seeded (l : Prov γ κ)  -- the first guess: the usable cross-section, built from the lines `l`
+  | built (l : Prov γ κ)   -- result of the root hook `OutProfile.cross_section`: the helper at the PRESCRIBED width on the lines `l`
+  deriving Repr, DecidableEq, Inhabited
+
 structure St (γ κ : Type) where
   lines : Option (Prov γ κ) := none
   gapC : Option γ := none
@@ -82,6 +98,9 @@ structure St (γ κ : Type) where
   used : List (Prov γ κ) := []
   cpC : Option κ := none
   rline : Option κ := none
+  outp : Bool := false
+  crt : Bool := false
+  ocs : Option (OutCs γ κ) := none
   deriving Repr, Inhabited
 
 section run
@@ -167,7 +186,7 @@ def runChain (p : Pass) (g : γ) (k : κ) : List (List ROp) → St γ κ → St 
 
 def step (p : Pass) (g : γ) (k : κ) : LStep → St γ κ → St γ κ
   | .selfReeval, s => runChain p g k p.chain s
-  | .rootHooks, s => let r := readLines p g k s; { r.2 with used := r.1 :: r.2.used }
+  | .rootHooks, s => let r := readLines p g k s; { r.2 with used := r.1 :: r.2.used, ocs := some (.built r.1) }
   | _, s => s
 
 /-- one iteration of the solution loop while the gap hook's implementation answers `g` and groove `k` is mounted -/
@@ -175,11 +194,25 @@ def iter (p : Pass) (g : γ) (k : κ) : List LStep → St γ κ → St γ κ
   | [], s => s
   | st :: rest, s => iter p g k rest (step p g k st s)
 
+/-- `self.out_profile.cross_section = self.usable_cross_section` -/
+def seedOut (p : Pass) (g : γ) (k : κ) (s : St γ κ) : St γ κ :=
+  let s1 := readUcs p g k s
+  match s1.ucs with
+  | some l => { s1 with ocs := some (.seeded l) }
+  | none => s1
+
+/-- `Unit.init_solve` as far as the out profile goes: created (with what the incoming profile hands over) when the pass has
+    none, otherwise re-used - the root-hook results of the previous solution, `cross_section` among them, stay -/
+def superInit (s : St γ κ) : St γ κ :=
+  if s.outp then s else { s with outp := true, ocs := some .inherited }
+
 def initSolve (p : Pass) (g : γ) (k : κ) : List IOp → St γ κ → St γ κ
   | [], s => s
-  | .super :: r, s => initSolve p g k r s
+  | .super :: r, s => initSolve p g k r (superInit s)
   | .reset :: r, s => initSolve p g k r { s with lines := none }
-  | .seed :: r, s => initSolve p g k r (readUcs p g k s)
+  | .seed :: r, s => initSolve p g k r (seedOut p g k s)
+  | .created :: r, s => initSolve p g k r { s with crt := !s.outp }
+  | .seedIfCreated :: r, s => initSolve p g k r (if s.crt then seedOut p g k s else s)
 
 def iterate (p : Pass) (loop : List LStep) (k : κ) : List γ → St γ κ → St γ κ
   | [], s => s
